@@ -9,8 +9,11 @@
         multiaddr.Multiaddr interface type, finding origins-undecodable);
    17 = Pin.Equals / PinOptions.Equals on two well-formed values differs from field-by-field sameness;
    20 = a recorded malformed input still makes its decoder panic / yield a value that cannot be re-encoded;
-   14 = a status filter of defined bits / a named pin type / a pin mode does not survive its string form. *)
-From V Require Import Base.Common Base.C08_Str Model.C08_Codec Model.C08_Query Model.C08_Status Base.C08_Schema Gen.C08Tags Model.C08_Fmap Model.C08_Equals Model.C08_Wire.
+   14 = a status filter of defined bits / a named pin type / a pin mode does not survive its string form;
+   21 = Raft log: a well-formed entry applied by the FSM loop (one shared LogOp decoded into for every entry) did not hand
+        the tracker the submitted pin, or the state did not read back its stored form - whatever the earlier entries were
+        (tag 1: the pin carries origins). *)
+From V Require Import Base.Common Base.C08_Str Model.C08_Codec Model.C08_Query Model.C08_Status Base.C08_Schema Gen.C08Tags Model.C08_Fmap Model.C08_Equals Model.C08_Wire Model.C08_Reuse.
 Open Scope Z_scope.
 
 (* ---- decidable equalities on the value types ---- *)
@@ -126,7 +129,36 @@ Definition wpin_eqb (a b : wpin) : bool :=
   bytes_eqb (w_cid a) (w_cid b) && (w_type a =? w_type b)%N && list_eqb bytes_eqb (w_allocs a) (w_allocs b)
   && (w_depth a =? w_depth b) && bytes_eqb (w_ref a) (w_ref b) && opt_eqb wopts_eqb (w_opts a) (w_opts b).
 
+(* ---- Raft log entries through the one shared LogOp ---- *)
+Definition step_res_eqb (a b : step_res) : bool :=
+  match a, b with
+  | SEncErr, SEncErr | SDecErr, SDecErr | SNoPin, SNoPin | SAddErr, SAddErr | SIgnored, SIgnored => true
+  | SPinned t s, SPinned t' s' => pin_eqb t t' && pin_eqb s s'
+  | SPinnedLost t, SPinnedLost t' | SUnpinned t, SUnpinned t' => pin_eqb t t'
+  | _, _ => false
+  end.
+
+(* the boolean form of the property on the observed run: every well-formed entry that the run reached comes out as
+   [expected] says, which looks at that entry alone. Returns the tag of the first entry that does not (0: none fails). *)
+Fixpoint spec_logop (es : list (Z * pin)) (obs : list step_res) : option N :=
+  match es, obs with
+  | e :: er, o :: or =>
+      if wf_entry e && negb (step_res_eqb o (expected e)) then Some (if entry_has_iface e then 1%N else 0%N)
+      else spec_logop er or
+  | _, _ => None
+  end.
+
+Definition onto_eqb (a b : option (result pin)) : bool :=
+  match a, b with
+  | None, None => true
+  | Some Err, Some Err => true
+  | Some (Ok p), Some (Ok q) => pin_eqb p q
+  | _, _ => false
+  end.
+
 Inductive payload :=
+  | CLogOp (es : list (Z * pin)) (obs : list step_res)   (* entries pushed through decode-into-the-shared-op + ApplyTo, what each did *)
+  | CLogOnto (a b : pin) (o : option (result pin))        (* b decoded on top of a, no ApplyTo in between *)
   | CPb (p : pin) (o : obs_pin)
   | CPbMsg (old : pin) (m : pbpin) (o o2 : obs_pin)
   | CQuery (orc : oracle) (o : opts) (ob : obs_q)
@@ -172,6 +204,11 @@ Definition spec_qraw (old : opts) (ob ob2 : obs_q) : bool :=
 Definition check_case (c : case) : list (N * N * N) :=
   let '(id, pl) := c in
   match pl with
+  | CLogOp es obs =>
+      fail_if (negb (logop_layout_ok && pin_layout_ok && list_eqb step_res_eqb (logop_apply_seq true logop_zero es) obs)) id 1 0 ++
+      match spec_logop es obs with Some tg => [(id, 21%N, tg)] | None => [] end
+  | CLogOnto a b o =>
+      fail_if (negb (logop_layout_ok && pin_layout_ok && onto_eqb (pin_onto a b) o)) id 1 0
   | CPb p o =>
       fail_if (negb (obs_pin_eqb (model_cycle p) o)) id 1 0 ++
       fail_if (negb (spec_pb p o)) id 10 0
